@@ -21,6 +21,7 @@ ASSUMPTIONS = [
     'binary collation for string comparison on every backend (the MySQL default collations are case-insensitive: a server configuration, outside the model)',
     'integers are unbounded; division by zero is outside the statement (SQLite / MySQL give NULL, PostgreSQL raises, Python raises)',
     'Oracle: structure and text only (its semantics, \'\' = NULL, is not modelled); CockroachDB: not covered',
+    'string slices / indexes are outside the C02 theorems (proved in C25); the search compares them across dialects with C25\'s machinery (tools/props/c25.py, tools/sqlsem.py)',
     'JSON / array operators, date arithmetic, row values per dialect: not covered',
 ]
 RULE = ('structural + text: enumerated depth<=2 (sampled in the quick tier), sampled depth-3 and seeded random typed expressions, each translated and rendered on 4 '
@@ -243,6 +244,59 @@ def make_failure(prov, e, params, row, mode, key):
     return Failure(key, what, {'provider': prov, 'expr': L.to_json(e), 'params': {str(i): v for i, v in params.items()}, 'row': row, 'mode': mode})
 
 
+# ---- string slices / indexes: the machinery of check C25 (tools/props/c25.py, tools/sqlsem.py) judged the C02 way: the value
+#      under the PostgreSQL / MySQL reading of the SQL the real builder produced vs the value on SQLite (py_string_slice)
+
+def slice_agreement(ctx, deep):
+    import props.c25 as c25
+    vals = list(range(-3, 4)) if not deep else list(range(-5, 6))
+    lens = list(range(0, 5))
+    shapes = [('omit', None)] + [('const', z) for z in vals] + [('param', z) for z in vals] + [('expr', None)]
+    cases = [{'form': 'slice', 'start': list(st), 'stop': list(sp)} for st in shapes for sp in shapes]
+    cases += [{'form': 'index', 'start': list(st), 'stop': None} for st in shapes if st[0] != 'omit']
+    failures, seen, evals = [], {}, 0
+    for case in cases:
+        ua = case['start'][0] == 'expr'; ub = bool(case['stop']) and case['stop'][0] == 'expr'
+        for n in lens:
+            for a in (vals if ua else [0]):
+                for b in (vals if ub else [0]):
+                    try:
+                        base, _ = c25.eval_case('sqlite', dict(case, provider='sqlite'), n, a, b)
+                    except Exception:
+                        continue
+                    for prov in ('postgres', 'mysql'):
+                        evals += 1
+                        try:
+                            got, _ = c25.eval_case(prov, dict(case, provider=prov), n, a, b)
+                        except Exception as ex:
+                            got = 'EXC %s' % type(ex).__name__
+                        if got != base:
+                            st, sp = case['start'], case['stop']
+                            av = st[1] if st[0] in ('const', 'param') else (a if ua else None)
+                            bv = None if not sp else (sp[1] if sp[0] in ('const', 'param') else (b if ub else None))
+                            key = 'slice:' + c25.classify(prov, case['form'], st, sp, av, bv, n)
+                            seen[key] = seen.get(key, 0) + 1
+                            if seen[key] <= 1:
+                                what = '%s (documented substr semantics, not executed) gives %r, SQLite gives %r for %s with x=%r y=%r on name=%r a=%r b=%r' % (
+                                    prov, got, base, c25.query_text(case), st[1], sp[1] if sp else None, c25.ALPHA[:n], a, b)
+                                failures.append(Failure(key, what, {'slice': {'provider': prov, 'case': case, 'n': n, 'a': a, 'b': b}}))
+    return evals, failures, seen
+
+
+def replay_slice(d):
+    import props.c25 as c25
+    case, n, a, b, prov = d['case'], d['n'], d['a'], d['b'], d['provider']
+    base, _ = c25.eval_case('sqlite', dict(case, provider='sqlite'), n, a, b)
+    try: got, _ = c25.eval_case(prov, dict(case, provider=prov), n, a, b)
+    except Exception as ex: got = 'EXC %s' % type(ex).__name__
+    if got == base: return None
+    st, sp = case['start'], case['stop']
+    av = st[1] if st[0] in ('const', 'param') else (a if st[0] == 'expr' else None)
+    bv = None if not sp else (sp[1] if sp[0] in ('const', 'param') else (b if sp[0] == 'expr' else None))
+    return Failure('slice:' + c25.classify(prov, case['form'], st, sp, av, bv, n),
+                   '%s (documented substr semantics) gives %r, SQLite gives %r for %s' % (prov, got, base, c25.query_text(case)), {'slice': d})
+
+
 def search(ctx, deep):
     z = sizes(ctx, deep)
     rows = search_rows(ctx, z['search_rows'])
@@ -274,7 +328,10 @@ def search(ctx, deep):
         seen[key] = seen.get(key, 0) + 1
         if seen[key] <= 1: failures.append(make_failure(prov, e, params, row, mode, key))
     dist['failing_rows_by_key'] = seen
-    return Search(evaluations=len(exprs), failures=failures, nontrivial=len(nontriv), distribution=dist, exhaustive=False,
+    s_evals, s_fail, s_seen = slice_agreement(ctx, deep)
+    failures += s_fail
+    dist['slice_agreement'] = {'evaluations': s_evals, 'disagreeing_by_key': s_seen}
+    return Search(evaluations=len(exprs) + s_evals, failures=failures, nontrivial=len(nontriv), distribution=dist, exhaustive=False,
                   samples=[{'case': exprs[len(exprs) // 2][:500]}] if exprs else [])
 
 
@@ -292,10 +349,15 @@ def _replay_parts(data):
 
 
 def replay(ctx, data):
+    if 'slice' in data: return replay_slice(data['slice'])
+    return replay_expr(ctx, data)
+
+
+def replay_expr(ctx, data):
     """One stored input. The recorded findings are evaluated together in one coqc run (cached) to keep the check fast."""
     key = _payload_key(data)
     if key not in _replay_cache:
-        batch = [data] + [k['replay'] for k in vlib.known_for(ID) if k.get('replay') and _payload_key(k['replay']) != key]
+        batch = [data] + [k['replay'] for k in vlib.known_for(ID) if k.get('replay') and 'slice' not in k['replay'] and _payload_key(k['replay']) != key]
         cases, owners = [], []
         for d in batch:
             try:
